@@ -70,6 +70,16 @@ def run(ctx):
         ga = [x for x in calls_in(rs.node) if last_attr(x) == '_get_restart_args']
         clr = [x for x in calls_in(rs.node) if last_attr(x) == 'clear']
         ok4 = bool(ga) and bool(clr) and ga[0].lineno < clr[0].lineno < c.lineno
+        if ok4:
+            # must-pass-through on the CFG, not only lexical order
+            def post(calls):
+                return {n.id for n in g.nodes if n.stmt is not None and n.part == 'post' and any(x in calls for x in n.calls())}
+
+            def evals(calls):
+                return [n for n in g.nodes if n.stmt is not None and n.part == 'eval' and any(x in calls for x in n.calls())]
+            p1 = g.find_path([g.entry], lambda n: n in evals(clr), edge_ok=is_flow, node_ok=lambda n: n.id not in post(ga))
+            p2 = g.find_path([g.entry], lambda n: n in evals([c]), edge_ok=is_flow, node_ok=lambda n: n.id not in post(clr))
+            ok4 = p1 is None and p2 is None
         ctx.check('R3', 'arguments are collected before the clear, the clear precedes the re-initialisation', ok4, 'PersistentWorker.restart', 'restart-order',
                   'restart() collects its arguments after clearing the instance (or re-initialises before clearing)', where=loc(rs, rs.node))
 
